@@ -3,6 +3,7 @@ package gen
 import (
 	"sort"
 	"strings"
+	"unicode"
 
 	"pgregory.net/rapid"
 
@@ -22,6 +23,8 @@ type C07TreeOpts struct {
 	Intervals       []string // time interval names, default ti0…ti2
 	GroupByNames    []string // default a b c d
 	NoRouteLabels   bool
+	// GuardedRootOneIn > 0: one tree in that many carries matchers on the root.
+	GuardedRootOneIn int
 }
 
 var (
@@ -75,6 +78,24 @@ func C07Tree(o C07TreeOpts) *rapid.Generator[*ref.RouteNode] {
 		rcv := rapid.SampledFrom(o.Receivers).Draw(t, "rootReceiver")
 		root.Receiver = &rcv
 		c07Options(t, o, root, 2)
+		if o.GuardedRootOneIn > 0 && c07Chance(t, o.GuardedRootOneIn, "guardedRoot") {
+			// a root route that carries matchers of its own (any of the three
+			// spellings): the loader is expected to refuse it; if it does not,
+			// the root must still match everything.
+			switch rapid.IntRange(0, 3).Draw(t, "rootGuardStyle") {
+			case 0:
+				root.Matchers = append(root.Matchers, UniMatcher().Draw(t, "m"))
+			case 1:
+				root.LegacyMatch = c07LegacyMatch(t)
+			case 2:
+				root.LegacyMatchRE = c07LegacyMatchRE(t)
+			default:
+				root.LegacyMatchRE = c07LegacyMatchRE(t)
+				if rapid.Bool().Draw(t, "alsoMatch") {
+					root.LegacyMatch = c07LegacyMatch(t)
+				}
+			}
+		}
 		c07Children(t, o, root, 0, &budget)
 		return root
 	})
@@ -232,7 +253,7 @@ func c07LegacyMatchRE(t *rapid.T) map[string]*ref.Re {
 	m := map[string]*ref.Re{}
 	n := rapid.IntRange(1, 2).Draw(t, "nMatchRE")
 	for i := 0; i < n; i++ {
-		m[rapid.SampledFrom(UniNames).Draw(t, "matchREName")] = drawRe(t, uniAlphabet, rapid.IntRange(0, 2).Draw(t, "depth"))
+		m[rapid.SampledFrom(UniNames).Draw(t, "matchREName")] = drawReRoot(t, uniAlphabet, rapid.IntRange(0, 2).Draw(t, "depth"))
 	}
 	return m
 }
@@ -276,6 +297,8 @@ func C07SampleRe(t *rapid.T, r *ref.Re, alphabet []rune) string {
 		return C07SampleRe(t, r.Subs[rapid.IntRange(0, len(r.Subs)-1).Draw(t, "altI")], alphabet)
 	case "group":
 		return C07SampleRe(t, r.Subs[0], alphabet)
+	case "fold", "foldall":
+		return FlipCase(t, C07SampleRe(t, r.Subs[0], alphabet))
 	case "opt":
 		if rapid.Bool().Draw(t, "opt") {
 			return C07SampleRe(t, r.Subs[0], alphabet)
@@ -293,6 +316,21 @@ func C07SampleRe(t *rapid.T, r *ref.Re, alphabet []rune) string {
 		return sb.String()
 	}
 	return ""
+}
+
+// FlipCase changes the case of each letter of s with probability 1/2.
+func FlipCase(t *rapid.T, s string) string {
+	rs := []rune(s)
+	for i, c := range rs {
+		if unicode.IsLetter(c) && rapid.Bool().Draw(t, "flip") {
+			if unicode.IsUpper(c) {
+				rs[i] = unicode.ToLower(c)
+			} else {
+				rs[i] = unicode.ToUpper(c)
+			}
+		}
+	}
+	return string(rs)
 }
 
 // C07LabelSet draws a label set biased to reach into the tree: half of the
